@@ -348,7 +348,7 @@ def _worker(check, tier, seed, n_cases, idx, known, q):
     scratch = os.path.join(os.environ.get("VERIF_SCRATCH", "/dev/shm"), f"verif-{os.getpid()}")
     os.makedirs(scratch, exist_ok=True)
     ctx = Ctx(check, tier, scratch)
-    state = {"failed": False, "last_fail": None}
+    state = {"failed": False, "last_fail": None, "fail_cache": {}, "shrink_deadline": 0.0}
     wseed = int.from_bytes(hashlib.sha256(f"{check.prop}/{seed}/{idx}".encode()).digest()[:8], "big")
 
     @hypothesis.seed(wseed)
@@ -358,10 +358,22 @@ def _worker(check, tier, seed, n_cases, idx, known, q):
               phases=[Phase.generate, Phase.shrink], report_multiple_bugs=False)
     @given(check.strategy(tier))
     def prop(case):
+        # Shrinking is bounded by a wall-clock budget after the first failure: past it, cases already
+        # known to fail fail again from the cache and unseen candidates are not explored further.
+        h = case_hash(case)
+        if state["failed"]:
+            if h in state["fail_cache"]:
+                state["last_fail"] = (case, state["fail_cache"][h])
+                raise state["fail_cache"][h]
+            if time.time() > state["shrink_deadline"]:
+                return
         try:
             evaluate(check, case, ctx, stats, known, counting=not state["failed"])
         except Violation as v:
+            if not state["failed"]:
+                state["shrink_deadline"] = time.time() + float(os.environ.get("VERIF_SHRINK_S", "90"))
             state["failed"] = True
+            state["fail_cache"][h] = v
             state["last_fail"] = (case, v)
             raise
 
